@@ -261,8 +261,10 @@ STUDY_ASSUMPTIONS = [
     "PyYAML, str(), md5 are oracles of the expansion model; regular expressions modelled for ASCII names",
 ]
 PER_PROP = {
-    "C05": ["termination is proved for decisive scheduler answers (FINISHED/FAILED/UNKNOWN/CANCELLED for every "
-            "tracked job) on acyclic configurations; broader fairness is monitored on the real code, not proved"],
+    "C05": ["termination is proved on acyclic configurations for polls that answer every tracked job with FINISHED / "
+            "FAILED / UNKNOWN / CANCELLED, and - when every restartable step has a finite restart limit - also "
+            "TIMEDOUT; answers that never end a job (RUNNING forever, lost jobs, endless HWFAILURE re-queues, "
+            "unlimited restarts) are outside the theorems and monitored on the real code"],
     "C12": ["filelock / OS mutual exclusion and atomicity of a single write are trusted (sampled by the stress run)"],
     "C13": ["documents are parsed trees (PyYAML collapses duplicate mapping keys before the code sees them); "
             "jsonschema Draft 7 modelled for the keywords the schema file uses; file-system dependent failures "
